@@ -34,6 +34,7 @@ ALL = {
     'C10': 'p_c10',
     'C14': 'p_c14',
     'C15': 'p_c15',
+    'C19': 'p_c19',
     'C20': 'p_c20',
 }
 
